@@ -133,6 +133,23 @@ func runC12(c C12Case, ev *Evid) (fs []Finding) {
 	// the two runs use separate (identical) destination trees: mask their base paths
 	tl := strings.ReplaceAll(readText(outL), dests[0], "<dest>")
 	tr := strings.ReplaceAll(readText(outR), dests[1], "<dest>")
+	// err: records carry an error message (never compared, only the class) and name the side that
+	// was missing; when both sides are missing the side reported first depends on goroutine order
+	bothMissing := c.Cmd == "diff" && !strings.ContainsAny(c.Rel, "*?[") && !fileExists(filepath.Join(root, sub, c.Rel)) && !fileExists(filepath.Join(dests[0], sub, c.Rel))
+	maskErr := func(text string) string {
+		lines := strings.Split(text, "\n")
+		for i, ln := range lines {
+			if strings.HasPrefix(ln, "err:") {
+				side := ""
+				if j := strings.LastIndex(ln, "\tsrcOrDest:"); j >= 0 && !bothMissing {
+					side = ln[j:]
+				}
+				lines[i] = "err:<message>" + side
+			}
+		}
+		return strings.Join(lines, "\n")
+	}
+	tl, tr = maskErr(tl), maskErr(tr)
 	if cl == "error" {
 		// a failing command may have printed a prefix; only successful / classified runs are compared byte for byte
 		tl, tr = "", ""
